@@ -6,6 +6,8 @@ import (
 	"math/rand"
 
 	"github.com/Trendyol/go-dcp/config"
+	"github.com/Trendyol/go-dcp/membership"
+	"github.com/asaskevich/EventBus"
 	"github.com/Trendyol/go-dcp/helpers"
 	"github.com/Trendyol/go-dcp/stream"
 
@@ -19,7 +21,9 @@ import (
 
 type c09Params struct {
 	NFrom, NTo int
-	Disc       [][3]int // (N,T,member) triples for the discovery path
+	Disc       [][2]int // (N,T) pairs for the discovery path: every member is evaluated
+	Seqs       [][][2]int // membership sequences (member,total) driven through ONE long-lived dynamic discovery instance
+	SeqN       []int      // vBucket count per sequence
 }
 
 func init() {
@@ -32,28 +36,40 @@ func init() {
 		Gen: func(seed int64, tier string) []drv.Scenario {
 			var out []drv.Scenario
 			rng := rand.New(rand.NewSource(seed))
-			nd := 125
+			nd, nseq := 12, 12
 			if tier == "thorough" {
-				nd = 4000
+				nd, nseq = 120, 300
 			}
 			for b := 0; b < 16; b++ {
 				p := c09Params{NFrom: b*64 + 1, NTo: (b + 1) * 64}
 				for i := 0; i < nd; i++ {
-					n := []int{64, 128, 1024, 1 + rng.Intn(1024)}[rng.Intn(4)]
+					n := []int{64, 128, 1024, 1 + rng.Intn(1024), 1 + rng.Intn(200)}[rng.Intn(5)]
 					t := 1 + rng.Intn(n)
-					if rng.Intn(3) == 0 {
+					if rng.Intn(2) == 0 {
 						t = 1 + rng.Intn(min(n, 16))
 					}
-					p.Disc = append(p.Disc, [3]int{n, t, 1 + rng.Intn(t)})
+					p.Disc = append(p.Disc, [2]int{n, t})
 				}
-				if tier == "thorough" && b < 3 {
-					// all members for N in {64,128} and a slice of 1024
+				if b < 3 {
 					n := []int{64, 128, 1024}[b]
-					for t := 1; t <= n; t += 1 + b*7 {
-						for m := 1; m <= t; m += 1 + b*5 {
-							p.Disc = append(p.Disc, [3]int{n, t, m})
+					p.Disc = append(p.Disc, [2]int{n, n}, [2]int{n, n - 1}, [2]int{n, n/2 + 1}, [2]int{n, 63}, [2]int{n, 64}, [2]int{n, 48})
+				}
+				for i := 0; i < nseq; i++ {
+					n := []int{64, 128, 1024, 1 + rng.Intn(1024)}[rng.Intn(4)]
+					var seq [][2]int
+					for k := 0; k < 2+rng.Intn(6); k++ {
+						t := 1 + rng.Intn(min(n, 6))
+						if rng.Intn(3) == 0 {
+							t = 1
+						}
+						mt := [2]int{1 + rng.Intn(t), t}
+						seq = append(seq, mt)
+						if rng.Intn(3) == 0 {
+							seq = append(seq, mt) // repeated notification
 						}
 					}
+					p.Seqs = append(p.Seqs, seq)
+					p.SeqN = append(p.SeqN, n)
 				}
 				raw, _ := json.Marshal(p)
 				out = append(out, drv.Scenario{Kind: "block", Seed: seed, Params: raw, TimeoutS: 300})
@@ -126,50 +142,71 @@ func runC09(sc drv.Scenario) drv.Result {
 		}
 	}
 	res.Events["pairs"] = res.Checks
-	// discovery path
+	// discovery path: every member of (N,T) through a fresh static-membership discovery; the union of
+	// what the members obtain must satisfy the partition predicate (no particular layout is demanded).
 	for _, d := range p.Disc {
-		n, t, m := d[0], d[1], d[2]
-		cfg := &config.Dcp{}
-		cfg.Dcp.Group.Membership.Type = "static"
-		cfg.Dcp.Group.Membership.MemberNumber = m
-		cfg.Dcp.Group.Membership.TotalMembers = t
-		vd := stream.NewVBucketDiscovery(nil, cfg, n, nil)
-		got := vd.Get()
-		got2 := vd.Get()
-		// reference: member m's chunk = [start,end) by the balanced-split rule of the statement
-		base, extra := n/t, n%t
-		start := (m-1)*base + min(m-1, extra)
-		size := base
-		if m-1 < extra {
-			size++
+		n, t := d[0], d[1]
+		chunks := make([][]uint16, t)
+		for m := 1; m <= t; m++ {
+			cfg := &config.Dcp{}
+			cfg.Dcp.Group.Membership.Type = "static"
+			cfg.Dcp.Group.Membership.MemberNumber = m
+			cfg.Dcp.Group.Membership.TotalMembers = t
+			vd := stream.NewVBucketDiscovery(nil, cfg, n, nil)
+			got := vd.Get()
+			got2 := vd.Get()
+			if fmt.Sprint(got) != fmt.Sprint(got2) {
+				return drv.Result{Verdict: drv.Violated, Clause: "discovery-pure", FindingKey: "C09/discovery-pure",
+					Detail: fmt.Sprintf("N=%d T=%d member=%d: two calls differ: %v vs %v", n, t, m, abbrev(got), abbrev(got2))}
+			}
+			chunks[m-1] = got
+			mt := vd.GetMetric()
+			if len(got) > 0 && (mt.MemberNumber != m || mt.TotalMembers != t || mt.VBucketRangeStart != got[0] || mt.VBucketRangeEnd != got[len(got)-1] || mt.VBucketCount != n) {
+				return drv.Result{Verdict: drv.Violated, Clause: "discovery-metric", FindingKey: "C09/discovery-metric",
+					Detail: fmt.Sprintf("N=%d T=%d m=%d metric=%+v but range is %s", n, t, m, *mt, abbrev(got))}
+			}
 		}
 		res.Checks++
-		res.Events["discovery"]++
-		bad := len(got) != size || len(got2) != size
-		if !bad {
-			for i, v := range got {
-				if int(v) != start+i || got2[i] != v {
-					bad = true
-					break
+		res.Events["discovery_pairs"]++
+		res.Events["discovery_members"] += t
+		if msg := checkChunks(n, t, chunks); msg != "" {
+			return drv.Result{Verdict: drv.Violated, Clause: "discovery", FindingKey: "C09/discovery", Detail: "through NewVBucketDiscovery: " + msg}
+		}
+	}
+	// sequences on ONE long-lived discovery instance (dynamic membership fed through the bus): the
+	// set obtained after each change must equal what a fresh instance computes for the same (N,T,member).
+	for si, seq := range p.Seqs {
+		n := p.SeqN[si]
+		bus := EventBus.New()
+		cfg := &config.Dcp{}
+		cfg.Dcp.Group.Membership.Type = "dynamic"
+		vd := stream.NewVBucketDiscovery(nil, cfg, n, bus)
+		for step, mt := range seq {
+			bus.Publish(helpers.MembershipChangedBusEventName, &membership.Model{MemberNumber: mt[0], TotalMembers: mt[1]})
+			bus.WaitAsync()
+			for rep := 0; rep < 2; rep++ {
+				got := vd.Get()
+				fc := &config.Dcp{}
+				fc.Dcp.Group.Membership.Type = "static"
+				fc.Dcp.Group.Membership.MemberNumber = mt[0]
+				fc.Dcp.Group.Membership.TotalMembers = mt[1]
+				want := stream.NewVBucketDiscovery(nil, fc, n, nil).Get()
+				res.Checks++
+				res.Events["discovery_seq_steps"]++
+				if fmt.Sprint(got) != fmt.Sprint(want) {
+					return drv.Result{Verdict: drv.Violated, Clause: "discovery-pure", FindingKey: "C09/discovery-history-dependent",
+						Detail: fmt.Sprintf("N=%d sequence %v step %d (call %d): long-lived instance returns %s, fresh instance for %d/%d returns %s", n, seq[:step+1], step, rep+1, abbrev(got), mt[0], mt[1], abbrev(want))}
 				}
 			}
 		}
-		mt := vd.GetMetric()
-		if !bad && (mt.MemberNumber != m || mt.TotalMembers != t || int(mt.VBucketRangeStart) != start || int(mt.VBucketRangeEnd) != start+size-1 || mt.VBucketCount != n) {
-			return drv.Result{Verdict: drv.Violated, Clause: "discovery-metric", FindingKey: "C09/discovery-metric",
-				Detail: fmt.Sprintf("N=%d T=%d m=%d metric=%+v expected range %d..%d", n, t, m, *mt, start, start+size-1)}
-		}
-		if bad {
-			return drv.Result{Verdict: drv.Violated, Clause: "discovery", FindingKey: "C09/discovery",
-				Detail: fmt.Sprintf("N=%d T=%d member=%d: got %v expected %d..%d", n, t, m, abbrev(got), start, start+size-1)}
-		}
+		vd.Close()
 	}
 	res.Nontrivial = nontrivial > 0
 	res.SubDistinct = nontrivial
 	res.SubEvals = res.Checks
 	res.TraceHash = fmt.Sprintf("block-%d-%d", p.NFrom, p.NTo)
 	res.Sample = map[string]any{"N_range": []int{p.NFrom, p.NTo}, "pairs_checked": res.Events["pairs"], "uneven_pairs": nontrivial,
-		"example": fmt.Sprintf("N=%d T=3 -> %v", p.NTo, chunkBounds(helpers.ChunkSlice[uint16](mkvbs(p.NTo), 3))), "discovery_triples": len(p.Disc)}
+		"example": fmt.Sprintf("N=%d T=3 -> %v", p.NTo, chunkBounds(helpers.ChunkSlice[uint16](mkvbs(p.NTo), 3))), "discovery_pairs": len(p.Disc), "discovery_sequences": len(p.Seqs)}
 	res.Events["uneven_pairs"] = nontrivial
 	return res
 }
